@@ -13,6 +13,10 @@ import (
 const rule = "case = one chain (scenario) of blocks built by the worker-equivalent builder, imported by InsertChain into two independent databases and re-executed K times on fresh StateDBs; non-trivial when the chain crosses >= 1 staking-period end and contains >= 1 staking transaction that was included and >= 1 transaction that failed or was refused; fork scenarios are non-trivial when the builder confirmed >= 1 evidence; distinct by scenario text"
 
 func main() {
+	if len(os.Args) == 3 && os.Args[1] == "debug-staking" {
+		debugStaking(os.Args[2])
+		return
+	}
 	vh.Main(vh.Harness{Property: "C06", Run: run, Replay: replay})
 }
 
@@ -89,7 +93,7 @@ func run(c *vh.Ctx) error {
 	chainkit.Init()
 	res := c.Res
 	res.Rule = rule
-	K := c.N(3, 8)
+	K := c.N(4, 8)
 
 	// ---- corpus first (fixed-finding witnesses and minimised past failures) ---------------------------------------
 	for _, f := range vh.CorpusFiles("C06") {
@@ -105,7 +109,7 @@ func run(c *vh.Ctx) error {
 	}
 
 	// ---- fork scenarios: a builder's block offered to a node whose head is elsewhere --------------------------------
-	nFork := c.N(6, 40)
+	nFork := c.N(12, 60)
 	for i := 0; i < nFork; i++ {
 		prefix := c.R.Range(1, 20)
 		if i == 0 {
@@ -136,8 +140,8 @@ func run(c *vh.Ctx) error {
 	}
 
 	// ---- generated chains ---------------------------------------------------------------------------------------------
-	nChains := c.N(10, 90)
-	blocksPer := c.N(40, 150)
+	nChains := c.N(50, 150)
+	blocksPer := c.N(70, 160)
 	if c.Search {
 		nChains *= 2
 	}
@@ -267,6 +271,6 @@ func replay(c *vh.Ctx, body, comments []string) (bool, string) {
 	if strings.HasPrefix(body[0], "L ") {
 		return replayLean(c, body)
 	}
-	f, what, _ := oracleOnScenario(body, 4)
+	f, what, _ := oracleOnScenario(body, 12) // enough repetitions to hit an order-dependent outcome with near certainty
 	return f, what
 }
